@@ -73,6 +73,48 @@ CHECKS.update({
         engine="lifecycle"),
 })
 
+CHECKS.update({
+    "C04": dict(
+        category="model_checking",
+        text="FanOut.tla (per-file semaphore of K tokens, WaitGroup barrier, private slots, ordered printing) is checked for every "
+             "interleaving of N<=5 checker goroutines over 2 files and K in 1..N (AtMostK, PrintAfterAll, SlotsComplete, "
+             "NoCtxWriteDuringCheck, OutEqualsSequential), each protection refuted when switched off; Analyzer.tla does the same for "
+             "concurrent passes sharing the mutex-protected cache. Runs of the real binary at several -concurrency values are recorded "
+             "through the verif hooks and validated by TraceFanOut.tla (FanOut instantiated over the trace: every acquire, start, "
+             "check, slot write, done, release, barrier, print is an action), their output must be byte-identical to the sequential "
+             "run; parallel analyzer passes are recorded and validated by TraceAnalyzer.tla and compared with sequential passes. Race "
+             "freedom of the real thing: race-detector builds of the binary (more tokens than checkers, no recorder) and of the "
+             "analyzer under the x/tools driver with parallel passes, repeated.",
+        design_ref="DESIGN.md section 6 C04, Appendix A.6, A.3",
+        note="Hooks add no synchronisation when no recorder is installed; race freedom rests on the detector's window and on C05.",
+        technique="TLC over all interleavings + trace validation of recorded concurrent runs + race detector",
+        engine="fanout"),
+    "C08": dict(
+        category="model_checking",
+        text="Registry.tla orders the two registration phases against the moment each front-end snapshots the registry (SameOffer "
+             "refuted for a snapshot before phase 2). The offers of the real binaries are extracted and compared with the registry; "
+             "a workspace with plain packages, in-package tests and external tests is analysed by the four binaries under equivalent "
+             "configurations (defaults, enable-all, by name, by tag, parameters, -go, tests off) and the normalised "
+             "(file, line, col, checker, message) multisets must be equal, each line once; quick fixes of the analyzer are compared "
+             "with the linter's.",
+        design_ref="DESIGN.md section 6 C08",
+        note="Equivalent configuration = Selection!Translatable; workspaces are built from example files.",
+        technique="TLA+ registration model + differential replay on the four real binaries",
+        engine="frontends"),
+    "C19": dict(
+        category="model_checking",
+        text="ConfigErrors.tla models the configuration pipeline of the four mains with one error exit per step and the analyzer's "
+             "re-entry after a reported init error (NoPanic, CleanFailure); the three crash/silent behaviours found on the pinned tree "
+             "are what-if constants and refuted. TLC exports all 84 (front-end, invalid-configuration class, package count) cases with "
+             "the predicted outcome; each is executed on the real binaries (non-zero exit, message names the problem, no panic, no "
+             "diagnostics). Recorded analyzer runs with an invalid configuration (sequential and parallel passes) are validated by "
+             "TraceAnalyzer.tla; packages with syntax, type, import and package-clause errors must not crash any front-end.",
+        design_ref="DESIGN.md section 6 C19, Appendix A.3",
+        note="'Names the problem' is judged by a class keyword in the output.",
+        technique="TLC case export + replay on the real binaries + analyzer trace validation",
+        engine="frontends"),
+})
+
 NOT_YET = "check not built yet (construction in progress; see DESIGN.md section 6)"
 NOT_APPLICABLE = {}
 
